@@ -36,7 +36,8 @@ PROFILE_NOPERIOD = Profile(name="laws_noperiod", min_periods=1, max_periods=3, a
                            filter_modes=("keep_all", "free"), **BIG)
 PROFILE_INFEASIBLE = Profile(name="laws_infeasible", min_periods=2, max_periods=3, free_constraints=0.9,
                              p_table_constraint=1.0, free_p_true=0.35, p_filter=0.3, max_disc_choices=2,
-                             max_cont_states=1, max_cont_choices=1, max_points=40_000)
+                             max_cont_states=1, max_cont_choices=1, max_points=40_000, p_infeasible_last=0.7,
+                             min_disc_states=1)
 PROFILE_STOCH = Profile(name="laws_stoch", min_periods=2, max_periods=4, p_stoch=0.9, max_disc_states=3, p_filter=0.4,
                         max_points=40_000)
 
